@@ -31,9 +31,9 @@ CHECK = {
          'cache keys, 8..16 goroutines x 400 ops of get/get-active/peek/put/upsert/remove/invalid-put/update-delta/get-with-delta, 0/20/40 % loader failures, '
          'loader delays) drawn from the seed; distinct_nontrivial = distinct configurations whose burst had at least one injected load failure, one writer '
          'and one removal. scripts: a case is one script (first load parked in the backing store x outcome ok|fail x 0..3 operations executed meanwhile x '
-         'capacity x byte limit), all scripts with <= 2 middle operations are enumerated, triples are sampled; distinct_nontrivial = distinct script '
+         'capacity x byte limit; the middle operations include "invalidate" = the channels of the model document change without a new revision/version and both its keys are removed), all scripts with <= 2 middle operations are enumerated, triples are sampled; distinct_nontrivial = distinct script '
          'shapes. invalidation: a case is one two-node database round (2..3 documents x 10 metadata-only channel updates with fresh channel names, 4..8 '
-         'concurrent readers on both nodes) plus 2 scripted histories. dbdiff: a case is one document history (3..8 revisions, attachments, tombstones, '
+         'concurrent readers on both nodes) plus 5 scripted histories (a reader parked right after its bucket read while the update is imported and passes the feed: GetActive x2 = read precedes the cache value, Get by revID x2 and Get by CV x1 = the invalidation arrives while the placeholder is loading). dbdiff: a case is one document history (3..8 revisions, attachments, tombstones, '
          'expiry) followed by 4..10 reads with different options, each followed by a cached-vs-fresh comparison.',
  'parts': [
    {'name': 'stress', 'pkg': 'db', 'race': True, 'run': '^TestVerif_C16_Stress$', 'timeout_q': 400, 'timeout_t': 2400},
@@ -51,6 +51,8 @@ CHECK = {
    'stress.put': 2000, 'stress.upsert': 1446, 'stress.remove': 3953, 'stress.stable_bursts': 15, 'stress.bursts_with_byte_limit': 34, 'stress.bursts_sharded': 24,
    'mixed.peek_hit': 3000, 'mixed.returned_revisions_checked': 10061, 'mixed.bursts_writers_on_failing_docs': 24, 'mixed.quiescence_checks': 50,
    'scripts.quiescence_checks': 427, 'scripts.returned_revisions_checked': 739, 'scripts.scripts_placeholder_replaced_or_failed': 392,
+   'scripts.scripts_with_invalidation_during_parked_load': 300,
+   'invalidation.scripted_histories_get-rev': 8, 'invalidation.scripted_histories_get-cv': 4, 'invalidation.scripted_histories_getactive': 8,
    'invalidation.updates_seen_on_feed': 30, 'invalidation.reads_judged': 200, 'invalidation.reads_returning_latest_seen_update': 30, 'invalidation.scripted_histories': 4,
    'dbdiff.differential_comparisons': 682, 'dbdiff.cached_values_compared': 309, 'dbdiff.full_history_requests_checked': 48,
  },
@@ -60,6 +62,8 @@ CHECK = {
  'assumptions': [
    'part 1 runs the real LRURevisionCache / RevisionCacheOrchestrator / ShardedLRURevisionCache / LRUDeltaCache over a harness backing store with immutable documents (2..5 revisions, '
    'current + one older revision and version addressable); the backing store never returns (nil document, nil error)',
+   'the model store has a per-document channel epoch: GetDocument captures it into the Document it returns and getRevision/getCurrentVersion serve the channels of the Document they are given, '
+   'so a load that read the document before a channel-only update completes with the old channels (as the real loaders do); only the scripts part bumps it',
    'the expectation for a key is a fault-free load of the same version through BypassRevisionCache, cross-checked against the harness model',
    'gauges are compared at quiescence only (all goroutines joined); during a burst only map/list agreement and the item capacity are checked, under the cache lock',
    'byte limits are not asserted (the property does not state a byte bound), only used to drive memory-based eviction',
